@@ -30,10 +30,15 @@ type Reader struct {
 // the data with:
 //
 //	1: control byte
-//	9: maximum varint stream id
-//	9: maximum varint message id
-//	9: maximum varint data length
-const maxFrameOverhead = 1 + 9 + 9 + 9
+//	10: maximum varint stream id
+//	10: maximum varint message id
+//	10: maximum varint data length
+//
+// ReadVarint accepts up to 10 bytes per varint, so this must too: with a
+// smaller value a frame with padded varints and a maximum sized payload would
+// be accepted when it arrives in one read and rejected when it arrives in
+// pieces.
+const maxFrameOverhead = 1 + 10 + 10 + 10
 
 // NewReader constructs a Reader to read Packets from the io.Reader.
 func NewReader(r io.Reader) *Reader {
